@@ -56,11 +56,20 @@ def setup_scratch():
     # warm the build (unmutated) so that each mutant only rebuilds zlink crates + zsim
     r = sh("cargo build --release --offline", cwd=f"{SCRATCH}/sim")
     assert r.returncode == 0, r.stderr[-3000:]
+    r = sh("cargo build --profile fast --offline", cwd=f"{SCRATCH}/sim")
+    assert r.returncode == 0, r.stderr[-3000:]
 
 
 def run_check(pid, tier, extra=()):
+    """Same order as ./check: main build, then the optimised build's slice, then (C19) the ids."""
     env = dict(ENV, VERIF_DIR=f"{SCRATCH}/verif")
     r = sh([f"{SCRATCH}/sim/target/release/zsim", pid, tier, "--no-evidence", *extra], env=env)
+    r.exe = f"{SCRATCH}/sim/target/release/zsim"
+    if r.returncode == 0:
+        b = sh("cargo build --profile fast --offline", cwd=f"{SCRATCH}/sim")
+        assert b.returncode == 0, b.stderr[-2000:]
+        r = sh([f"{SCRATCH}/sim/target/fast/zsim", pid, tier, "--no-evidence", "--twin", *extra], env=env)
+        r.exe = f"{SCRATCH}/sim/target/fast/zsim"
     if pid == "C19" and r.returncode == 0:
         # same order as ./check C19: the simulator first, then the ids under Miri's schedules
         r = sh(["python3", os.path.join(VERIF, "tools", "ids_miri.py"), tier, "--no-evidence"], env=env)
@@ -110,11 +119,12 @@ def mutants(args):
                             rp = sh(["python3", os.path.join(VERIF, "tools", "ids_miri.py"), "--replay", m.group(2)],
                                     env=dict(ENV, VERIF_DIR=f"{SCRATCH}/verif"))
                         else:
-                            rp = sh([f"{SCRATCH}/sim/target/release/zsim", pid, "--replay", m.group(2)],
+                            rp = sh([getattr(c, "exe", f"{SCRATCH}/sim/target/release/zsim"), pid, "--replay", m.group(2)],
                                     env=dict(ENV, VERIF_DIR=f"{SCRATCH}/verif"))
                         ok = rp.returncode == 1 and "exact reproduction of recorded history: yes" in rp.stdout
                         cls = re.search(r"violation class=(\S+)", c.stdout)
-                        verdicts.append(f"{pid}:DETECTED({cls.group(1) if cls else '?'}{'' if ok else ', REPLAY-MISMATCH'})")
+                        by = ", by the optimised build" if "/fast/" in getattr(c, "exe", "") else ""
+                        verdicts.append(f"{pid}:DETECTED({cls.group(1) if cls else '?'}{by}{'' if ok else ', REPLAY-MISMATCH'})")
                     elif c.returncode == 0:
                         verdicts.append(f"{pid}:missed")
                     else:
